@@ -774,6 +774,17 @@ func main() {
 	// G2 runs concurrently with G1 (it mostly waits for `go build` and subprocesses)
 	g2done := make(chan *g2Result, 1)
 	go func() { g2done <- runG2(c.Seed, c.Quick()) }()
+	if os.Getenv("C05_DEV_G2ONLY") != "" {
+		// development aid: only the process-level families (never a verdict on the whole property)
+		g2 := <-g2done
+		g2.report(c)
+		g2.reportHandlers(c)
+		c.Set("g2_cells", g2.Cells)
+		c.Set("g2h_outcome_table_cells", g2.HTable)
+		c.Set("g2_wall_s_incl_cli_build", g2.WallS)
+		c.NotExhaustive("C05_DEV_G2ONLY: G1 skipped")
+		c.Finish(int64(g2.Cells), int64(g2.Cells), int64(g2.Cells), "G2 only (development run)")
+	}
 
 	excl, mask := baselines(c)
 	instMask = mask
@@ -911,7 +922,7 @@ func main() {
 	}
 	hran := 0
 	for _, s := range g2.HSeen {
-		if strings.Contains(s.Obs.Stdout, hMarker) {
+		if s.Ran {
 			hran++
 		}
 	}
